@@ -52,6 +52,21 @@ TASK_COMM_LEN = 16          # include/linux/sched.h; comm holds <= 15 bytes + NU
 STATUS_KEYS = {"uids": "Uid", "gids": "Gid", "num_threads": "Threads",
                "num_ctx_switches": "ctxt_switches", "_get_eligible_cpus": "Cpus_allowed_list"}
 
+# proc(5) /proc/[pid]/status: "Uid, Gid: Real, effective, saved set, and filesystem
+# UIDs (GIDs)"; voluntary_ctxt_switches is printed before nonvoluntary_ctxt_switches.
+# public field -> (key the pattern must match, which match, which group)
+STATUS_SLOTS = {
+    ("Process.uids", "real"): ("Uid:", 0, 0), ("Process.uids", "effective"): ("Uid:", 0, 1),
+    ("Process.uids", "saved"): ("Uid:", 0, 2),
+    ("Process.gids", "real"): ("Gid:", 0, 0), ("Process.gids", "effective"): ("Gid:", 0, 1),
+    ("Process.gids", "saved"): ("Gid:", 0, 2),
+    ("Process.num_ctx_switches", "voluntary"): ("ctxt_switches:", 0, 0),
+    ("Process.num_ctx_switches", "involuntary"): ("ctxt_switches:", 1, 0),
+    ("Process.num_threads", None): ("Threads:", 0, 0),
+}
+# proc(5) /proc/stat keys -> scpustats field (value = column 1 of that line)
+PROC_STAT_KEYS = {"ctx_switches": b"ctxt", "interrupts": b"intr", "soft_interrupts": b"softirq"}
+
 # /proc/[pid]/statm (proc(5)): size resident shared text lib data dt  (pages)
 STATM = {"vms": 0, "rss": 1, "shared": 2, "text": 3, "lib": 4, "data": 5, "dirty": 6}
 
